@@ -207,7 +207,8 @@ def r3(ctx, cfg):
         f = ctx.need_fn(R, key)
         if f is None:
             continue
-        ret = peel(P.ret(f))
+        # (`new()` may be written as `Self::new_custom()`: pure forwarding is looked through)
+        ret = peel(q.returned_value(F, P, f))
         ok = ret[0] == "agg" and len(ret[2]) == 11 and not any(x[0] == "param" for x in leaves(ret))
         ctx.ob(R, key, "all-eleven-defaults", ok, "%s builds %s" % (key, fmt(ret)[:160]), fn=f, sample="11 default components")
 
@@ -239,15 +240,27 @@ def r4(ctx, cfg):
             d = "raw_fn(%s)" % ", ".join(fmt(x)[:40] for x in args)
             ok = is_param(fnv, "raw_fn") or contains(fnv, lambda x: x[0] == "param" and x[2] == "raw_fn")
             dec = peel(args[0])
+            # closure parameters by position (closure-local names are free to change): _2 deps, then env[, info], msg
             ok = ok and dec[0] == "call" and dec[1] in ("contracts::decustomize_deps_mut", "contracts::decustomize_deps") and \
-                contains(dec[2][0], lambda x: x[0] == "cparam" and x[2] == "deps")
-            names = ["env"] + (["info"] if with_info else []) + ["msg"]
-            ok = ok and len(args) == 1 + len(names) and all(peel(x)[0] == "cparam" and peel(x)[2] == n for x, n in zip(args[1:], names))
+                contains(dec[2][0], lambda x: x[0] == "cparam" and x[1] == 2)
+            npos = 2 + (1 if with_info else 0)
+            ok = ok and len(args) == 1 + npos and all(peel(x)[0] == "cparam" and peel(x)[1] == 3 + i for i, x in enumerate(args[1:]))
         ctx.ob(R, key, "wrapped-fn-gets-own-arguments", ok, "the wrapper calls %s" % d, fn=g, sample=d)
         ret = peel(P.ret(g))
         if lifted:
-            ok = ret[0] == "call" and ret[1] == "std::result::Result::map" and peel(ret[2][1]) == ("fn", "contracts::customize_response") and \
-                peel(ret[2][0])[0] == "call"
+            # `raw_fn(..).map(customize_response)` or `Ok(customize_response(raw_fn(..)?))`: same alternatives
+            al = [peel(x) for x in alts(ret)]
+            oks = [x for x in al if x[0] == "agg" and x[1].endswith("Result::Ok")]
+            errs = [x for x in al if x[0] == "call" and x[1].endswith("FromResidual::from_residual")]
+
+            def is_raw(o):
+                o = peel(o)
+                return o[0] == "call" and (o[1] == "<indirect>" or "Fn" in o[1])
+            ok = len(oks) == 1 and len(errs) == 1 and len(al) == 2
+            if ok:
+                p0 = peel(oks[0][2][0][1])
+                ok = p0[0] == "call" and p0[1] == "contracts::customize_response" and peel(p0[2][0])[0] == "ok" and is_raw(peel(p0[2][0])[1]) and \
+                    peel(errs[0][2][0])[0] == "err" and is_raw(peel(errs[0][2][0])[1])
         else:
             ok = ret[0] == "call" and (ret[1] == "<indirect>" or "Fn" in ret[1])
         ctx.ob(R, key, "result-forwarded", ok, "the wrapper returns %s" % fmt(ret)[:120], fn=g,
